@@ -1448,7 +1448,7 @@ func C17(r *core.Run) {
 	r.Assume("/cron/delete is executed but not judged (documented as restricted by app.yaml); an authorised call reading or writing keys in its own backend's namespace that merely contain a caller-supplied foreign request ID is not counted as touching the other backend; status codes for unknown/absent request IDs are only required to be 4xx; client requests are cut short once queued (incoming context cancelled) instead of waiting 30 s")
 	bin := r.MustBuild(e3Build(r))
 	rng := r.Rand("c17")
-	nWorlds := r.Pick(45, 450)
+	nWorlds := r.Pick(45, 380)
 	keep := 0.5
 	if !r.Quick() {
 		keep = 1.0
@@ -1586,5 +1586,5 @@ func C17(r *core.Run) {
 	r.Set("cases_generated", total)
 	r.Set("answered_401_or_403", unauth)
 	r.Set("agent_calls_not_rejected", auth)
-	e3Finish(r, res, r.Pick(15000, 250000))
+	e3Finish(r, res, r.Pick(15000, 200000))
 }
